@@ -98,7 +98,9 @@ def sender_vectors(args):
     rng = random.Random(seed)
     rx = Rx()
     out = []
-    jobs = [("temp", t) for t in temps] + [(None, None)] * n
+    pairs = [(p_, s_) for p_ in ("http://www.", "https://www.", "http://", "https://")
+             for s_ in (".com/", ".org/", ".edu/", ".net/", ".info/", ".biz/", ".gov/", ".com", ".org", ".edu", ".net", ".info", ".biz", ".gov")]
+    jobs = [("temp", t) for t in temps] + [(None, None)] * n + [("url", pr) for pr in pairs[seed % 16::16]]
     for (forced, tval) in jobs:
         tx = Ble()
         ble, m = tx.ble, tx.m
@@ -137,9 +139,12 @@ def sender_vectors(args):
                     c = m.chunk(sd.buffer)
                 elif kind == "url":
                     sd = m.UrlServiceData()
-                    url = rng.choice(["http://www.", "https://www.", "http://", "https://"]) + \
-                        "".join(rng.choice("abcdefghijklmnopqrstuvwxyz0123456789-") for _ in range(rng.randrange(1, 5))) + \
-                        rng.choice([".com", ".org/", ".net", ".io", ".gov/", "/x"])
+                    if forced == "url" and tval is not None:      # every scheme prefix x every compressible suffix
+                        url = tval[0] + rng.choice("abcxyz019") + tval[1]
+                    else:
+                        url = rng.choice(["http://www.", "https://www.", "http://", "https://"]) + \
+                            "".join(rng.choice("abcdefghijklmnopqrstuvwxyz0123456789-") for _ in range(rng.randrange(1, 5))) + \
+                            rng.choice([".com", ".org/", ".net", ".io", ".gov/", "/x"])
                     sd.data = url
                     p = rng.choice([-25, -4, 0, 7, -100])
                     sd.pa_level_at_1_meter = p
